@@ -1887,17 +1887,29 @@ func (this *decodingTask) decode(res *decodingTaskResult) {
 		maxL = int(this.blockLength)
 	}
 
-	if len(data) < maxL {
-		data = make([]byte, maxL)
+	if len(data) < int(this.blockLength) {
+		data = make([]byte, this.blockLength)
 		this.iBuffer.Buf = data
 	}
 
-	// Read data from shared bitstream
+	// Read data from shared bitstream.
+	// The length comes from the (possibly corrupted) bitstream: do not trust it
+	// for a big allocation up front, grow the buffer as the data arrives.
 	for n := uint(0); read > 0; {
-		chkSize := uint(1 << 30)
+		chkSize := uint(1 << 26)
 
-		if read < 1<<30 {
+		if read < 1<<26 {
 			chkSize = uint(read)
+		}
+
+		end := int(n + ((chkSize + 7) >> 3))
+
+		if len(data) < end {
+			// At most double the buffer (or add one chunk), never beyond the announced length
+			buf := make([]byte, min(maxL, max(2*len(data), len(data)+int(chkSize>>3)+1)))
+			copy(buf, data[0:n])
+			data = buf
+			this.iBuffer.Buf = data
 		}
 
 		this.ibs.ReadArray(data[n:], chkSize)
